@@ -63,6 +63,14 @@ CHECKS = {
              "their single-edit mutations; every string on which both readings agree is concretised and given to the real "
              "ParsePath: accept/reject and the normalised tree must match, and a sample goes end-to-end through CompileProfile.",
         ref="DESIGN.md §6 C16", technique="TLA+ transcription of the grammar + exhaustive string enumeration (TLC) replayed into the parser"),
+    "C02": dict(
+        text="spec/Paths.tla defines the denotation Den (predicate -> objects, / composition, | union, ^ converse, @type classes; "
+             "sets) and the generator-shaped unfolding into linear clauses; TLC enumerates every path with <=2 levels of / and | "
+             "over p, q, p^, q^, @type (6355 paths) on 4 canonical graphs (diamond, cycle, literal in mid-path, parallel/converse), "
+             "proves Den = union of clauses and emits Den per focus node; random deeper paths x random graphs are judged by the "
+             "same TLA+ operator; each case is rendered with random spacing/parentheses and observed on the real validator "
+             "through `in` traces (values), the maxCount trace (distinct count) and nested sub-results (nodes).",
+        ref="DESIGN.md §6 C02", technique="TLA+ denotational spec + exhaustive path enumeration (TLC) replayed into the validator"),
 }
 
 NOT_YET = "no check registered yet for this property in the current state of the framework (design in DESIGN.md §6)"
